@@ -4055,6 +4055,24 @@ int EGLPNUM_TYPENAME_ILLlib_readbasis (
 		ILL_CLEANUP;
 	}
 
+	/* every row must have got exactly one basic variable */
+	for (j = 0, i = 0; j < nstruct; j++)
+	{
+		if (B->cstat[j] == QS_COL_BSTAT_BASIC)
+			i++;
+	}
+	for (j = 0; j < nrows; j++)
+	{
+		if (B->rstat[j] == QS_ROW_BSTAT_BASIC)
+			i++;
+	}
+	if (i != nrows)
+	{
+		QSlog("BASIS file gives %d basic variables for %d rows", i, nrows);
+		rval = 1;
+		ILL_CLEANUP;
+	}
+
 	/* Correct the free variables */
 
 	for (j = 0; j < nstruct; j++)
